@@ -1048,6 +1048,11 @@ impl World {
                             b = b.remove_member(own_index)?;
                         }
                     }
+                    14 => {
+                        // the resumption PSK of an epoch that has not happened yet: nobody can hold it
+                        let off = [1u64, 7, u64::MAX - epoch][*_q % 3];
+                        b = b.add_resumption_psk(epoch.saturating_add(off))?;
+                    }
                     13 => {
                         // re-init next to a custom proposal that every member supports
                         b = b
